@@ -26,7 +26,7 @@ func init() {
 			"horizon: queries up to 3 days of playing time (whatever the tick count), tempo events in a single track",
 			"inverse domain: durations below 2^40 microseconds and tick rates below 10^7 ticks per second (statement)",
 		},
-		Require: []string{"maps", "queries", "border_queries", "monotonic_pairs", "repeated_tick_maps", "late_first_event_maps", "do_events_compared", "inverse_triples", "queries_beyond_2^32_ticks", "do_filtered_events_compared", "tempo_track_not_first", "format2_maps"},
+		Require: []string{"maps", "queries", "border_queries", "monotonic_pairs", "repeated_tick_maps", "late_first_event_maps", "do_events_compared", "inverse_triples", "queries_beyond_2^32_ticks", "do_filtered_events_compared", "tempo_track_not_first", "format2_maps", "large_tempo_maps"},
 		Run:     runC11,
 	})
 }
@@ -40,6 +40,10 @@ func runC11(c *mon.Ctx) {
 		ne := r.Intn(61)
 		if r.P(1, 3) {
 			ne = r.Intn(4)
+		}
+		if i%500 == 499 {
+			ne = r.Pick(300, 1000, 3000) // large maps: lookups and the cumulative pass must scale
+			c.Count("large_tempo_maps", 1)
 		}
 		tm := &ref.TempoMap{Resolution: res}
 		var tr []ref.EncEv
